@@ -73,6 +73,13 @@ impl ClockCore {
 
 pub struct ClockRef(pub Arc<ClockCore>);
 
+impl ClockRef {
+    #[inline]
+    pub fn get(&self) -> u64 {
+        self.0.read()
+    }
+}
+
 impl Clone for ClockRef {
     fn clone(&self) -> ClockRef {
         let mut forks = self.0.reg.forks.lock().unwrap();
@@ -102,7 +109,9 @@ pub fn sim_clock(
         reg,
     });
     let r = ClockRef(core.clone());
-    (core, move || r.0.read())
+    // `r.get()` (a method on the whole ClockRef) makes the closure capture `r` itself, so cloning
+    // the closure goes through `ClockRef::clone` (the fork), not through a plain Arc clone.
+    (core, move || r.get())
 }
 
 /// The model-side view of the same clock: plain cursor, no atomics, no abort.
